@@ -140,8 +140,14 @@ def step (st : St) (ws : List String) : St × String :=
         | none => ({ st with now := 0, frames := 0 }, "ret=-1")
         | some mid => loadRes st (parseSMF st.seq .midi mid)
       else if b.length ≥ 14 && b.take 4 == [70, 79, 82, 77] && (b.drop 8).take 4 == [88, 68, 73, 82] then
-        -- the AIL XMI converter is not modelled (DESIGN §5/C17): the model has no opinion until the next file it accepts
-        (st, "ret=?")
+        match Xmi.convert b with
+        | none => ({ st with now := 0, frames := 0 }, "ret=-1")
+        | some songs =>
+          if songs.isEmpty then ({ st with now := 0, frames := 0 }, "ret=-1") else
+          let k : Int := if st.songNum ≥ (songs.length : Int) then (songs.length : Int) - 1 else st.songNum
+          let k := if k < 0 then 0 else k
+          let st := { st with songs := songs, songNum := k }
+          loadRes st (parseSMF st.seq .xmidi (songs.getD k.toNat []))
       else loadRes st (loadMidi st.seq b)
     | none => (st, "bad-op")
   | ["selectsong", n] =>
